@@ -59,3 +59,59 @@ Ltac solve_none := decide_all; reflexivity.
 Ltac solve_count := decide_all; apply f_equal; apply pyint_plus1_eq; [itv | split; itv].
 Ltac solve_count_bnd := decide_all; repeat split; itv.
 Ltac solve_ceil := decide_all; apply f_equal; apply ceil_eq; split; itv.
+
+(** ** additions used by harness/props/C03.py *)
+
+(** "scipy raised": the oracle that never answers *)
+Definition onone : brentq := Build_brentq (fun _ _ _ => None) (fun _ _ _ => None) (fun _ _ _ => None).
+
+Ltac itvp := cbv [dy Rpower]; interval with (i_prec 90).
+Ltac red_guards2 :=
+  cbn [guard bind option_map negb andb orb Z.leb Z.ltb Z.eqb Z.compare Pos.compare Pos.compare_cont CompOpp
+       Pos.eqb orc onone bq_c2c_start bq_c2c_end bq_count].
+Ltac dec2 :=
+  match goal with
+  | |- context [Rltb ?a ?b] =>
+      first [ rewrite (Rltb_intro a b) by itvp | rewrite (Rltb_intro_false a b) by itvp ]
+  | |- context [Rleb ?a ?b] =>
+      first [ rewrite (Rleb_t a b) by itvp | rewrite (Rleb_f a b) by itvp ]
+  | |- context [Reqb ?a ?b] =>
+      first [ rewrite (Reqb_t a b) by first [ reflexivity | apply Rle_antisym; itvp ]
+            | rewrite (Reqb_f a b) by (apply Rlt_not_eq; itvp)
+            | rewrite (Reqb_f a b) by (apply Rgt_not_eq; itvp) ]
+  end; red_guards2.
+Ltac decide_all2 := unfold_rel; red_guards2; repeat dec2.
+
+(** goal shapes (version 2: also unfold Rpower, know [onone]) *)
+Ltac c_real := decide_all2; cbv [agreesR]; itvp.
+Ltac c_none := decide_all2; reflexivity.
+Ltac c_count := decide_all2; apply f_equal; apply pyint_plus1_eq; [itvp | split; itvp].
+Ltac c_count_bnd := decide_all2; repeat split; itvp.
+Ltac c_ceil := decide_all2; apply f_equal; apply ceil_eq; split; itvp.
+Ltac c_ceil_bnd := cbv [ceil_is d_min]; repeat dec2; split; itvp.
+
+(** residuals of the defining equations of the brentq relations *)
+Ltac ne1 := first [ apply Rlt_not_eq; itvp | apply Rgt_not_eq; itvp ].
+Ltac c_resid := try (rewrite <- !resid_closed by (first [ ne1 | lia ])); cbv [Gcode]; itvp.
+
+(** Chop.invert / Grading.inverted: agreement of the real fields to a relative tolerance *)
+Definition oR_agrees (a b : option R) (tol : R) : Prop :=
+  match a, b with
+  | Some x, Some y => Rabs (x - y) <= tol * Rabs y
+  | None, None => True
+  | _, _ => False
+  end.
+Definition data_agrees (a b : data) (tol : R) : Prop :=
+  d_count a = d_count b /\ oR_agrees (d_total a) (d_total b) tol /\ oR_agrees (d_c2c a) (d_c2c b) tol /\
+  oR_agrees (d_start a) (d_start b) tol /\ oR_agrees (d_end a) (d_end b) tol.
+Fixpoint spec_agrees (a b : list division) (tol : R) : Prop :=
+  match a, b with
+  | nil, nil => True
+  | (l1, n1, e1) :: a', (l2, n2, e2) :: b' =>
+      l1 = l2 /\ n1 = n2 /\ Rabs (e1 - e2) <= tol * Rabs e2 /\ spec_agrees a' b' tol
+  | _, _ => False
+  end.
+Ltac c_data :=
+  cbv [data_agrees invert post_init oR_agrees option_map d_count d_total d_c2c d_start d_end
+       spec_agrees inverted rev map app fst snd];
+  repeat split; first [ reflexivity | exact I | itvp ].
